@@ -35,6 +35,9 @@ EXTRA_SCOPE = [
 ]
 
 
+ALIASING_CALLS = {'numpy.asarray', 'numpy.asanyarray', 'numpy.ascontiguousarray', 'numpy.ravel', 'numpy.reshape', 'numpy.squeeze', 'numpy.atleast_1d'}
+
+
 def scope(model: Model) -> t.List[FuncInfo]:
     fs: t.Dict[str, FuncInfo] = {}
     for cls in family(model):
@@ -54,6 +57,29 @@ def scope(model: Model) -> t.List[FuncInfo]:
         g = model.functions.get(f'pane.classes.PaneBase.{nm}')
         if g is not None:
             fs[g.qualname] = g
+    # module-level constructors named in the tables of basic converters (they receive the input value itself)
+    conv_mod = model.modules.get('pane.converters')
+    if conv_mod is not None:
+        for tbl in ('_BASIC_CONVERTERS', '_BASIC_WITH_ARGS'):
+            val = conv_mod.assign_values.get(tbl)
+            for x in ast.walk(val) if val is not None else []:
+                if isinstance(x, ast.Name):
+                    g = model.functions.get(f'pane.converters.{x.id}')
+                    if g is not None and g.cls is None and isinstance(g.node, ast.FunctionDef):
+                        fs[g.qualname] = g
+    # module-level writers handed to a converter as `into_data_f=` (numpy add-on)
+    for q, f in list(model.functions.items()):
+        if not isinstance(f.node, ast.FunctionDef):
+            continue
+        for c in ast.walk(f.node):
+            if isinstance(c, ast.Call):
+                for k in c.keywords:
+                    if k.arg == 'into_data_f':
+                        for x in ast.walk(k.value):
+                            if isinstance(x, ast.Name):
+                                g = model.functions.get(model.resolve(x, f.module, f) or '')
+                                if g is not None and g.cls is None and isinstance(g.node, ast.FunctionDef):
+                                    fs[g.qualname] = g
     # nested closures defined inside into_data methods (DictConverter._k_into_data ...)
     for q, f in list(model.functions.items()):
         p = f.parent
@@ -141,6 +167,9 @@ class Freshness:
                     # a private accessor of the value's own class: what it returns may be a part of the value
                     return self.classify(f.value, n, depth + 1)
             if isinstance(f, ast.Name) and f.id in ('next', 'iter') and e.args:
+                return self.classify(e.args[0], n, depth + 1)
+            if (q in ALIASING_CALLS or (isinstance(f, ast.Attribute) and f.attr in ('asarray', 'asanyarray'))) and e.args:
+                # numpy.asarray(x, ...) is x itself when x already is an array of the requested dtype
                 return self.classify(e.args[0], n, depth + 1)
             if isinstance(f, ast.Name) and f.id in ('vars', 'getattr') and e.args and not self.rd.is_local(f.id):
                 # the live attribute dictionary / an attribute of the object: part of the caller's value
@@ -278,6 +307,10 @@ def _mutations(n: Node, private: bool = False) -> t.List[t.Tuple[str, ast.AST, a
                     out.append(('item delete', tg.value, tg))
                 elif isinstance(tg, ast.Attribute):
                     out.append(('attribute delete', tg.value, tg))
+    if n.kind == 'with' and isinstance(a, (ast.With, ast.AsyncWith)):
+        for item in a.items:
+            if isinstance(item.context_expr, (ast.Name, ast.Attribute, ast.Subscript)):
+                out.append(('with (enters and exits the object)', item.context_expr, item.context_expr))
     for root in node_exprs(n):
         for sub in walk_no_nested(root):
             if isinstance(sub, ast.Call) and isinstance(sub.func, ast.Attribute) and (sub.func.attr in MUTATORS or (private and _private(sub.func.attr))):
